@@ -660,5 +660,7 @@ pub fn run(cfg: &Cfg, out: &mut Out) -> String {
         }
         idx += 1;
     }
+    // tree-level stream (whole trees against Spec/MarginCollapse.lean); its case indices start at c10tree::BASE
+    crate::c10tree::run(cfg, out);
     String::new()
 }
